@@ -238,7 +238,403 @@ def format_files_ob(P, R, mp, log_dir, bound):
 def build(pid, P, R, tier, log_dir):
     import mirx_props as mp
     obs = []
+    if pid in ("C12", "C15"):
+        obs.append(cargo_toml_ob(P, R, mp, log_dir, 2 if tier == "quick" else 3, pid))
+    if pid == "C15":
+        obs.append(add_rust_crate_ob(P, R, mp, log_dir))
     if pid == "C09":
         obs.append(check_formatted_ob(P, R, mp, log_dir))
         obs.append(format_files_ob(P, R, mp, log_dir, 2 if tier == "quick" else 3))
     return obs
+
+
+# ---- C12 / C15: the Cargo.toml dependency table --------------------------------------------------------------------------------------
+FEATURE_LINES = {
+    # documented pins of the crates the compiler itself adds (docs + property C15)
+    "serde": 'serde = { version = "1.0", features = ["derive"] }',
+    "serde_json": 'serde_json = "1.0"',
+    "axum": 'axum = "0.8"',
+}
+TOKIO = 'tokio = { version = "1", features = ["rt-multi-thread", "macros", "time", "sync"%s] }'
+
+
+def cargo_executor(P, R, bound, reverse):
+    from symex import Adt, Ref
+    ex = slice_executor(P, R, bound)
+    ex.model_symmaps = True
+    ex.model_maps = True
+    ex.model_vecs = True
+    ex.symmap_reverse = reverse
+    t = dict(mirx.STATE_INTRINSICS)
+
+    def final_ref(r, st):
+        while isinstance(r, Ref):
+            v = ex._load(r.frame, r.place, st)
+            if not isinstance(v, Ref):
+                return r
+            r = v
+        return None
+
+    def map_iter(ex_, callee, args, st):
+        m = ex_.deref(args[0], st)
+        if not isinstance(m, symex.Sym):
+            raise Unsupported(f"iteration over {m!r}")
+        out = []
+        for n, st2 in mirx.symmap_entries(ex_, m, st):
+            order = list(range(n))
+            if ex_.symmap_reverse:
+                order.reverse()        # HashMap iteration order is arbitrary: the second run visits the entries the other way round
+            ents = Adt("Vec", "lit", [symex.Tup([mirx.symmap_key(ex_, m, j), mirx.symmap_val(ex_, m, j)]) for j in order])
+            out.append(("return", mirx.SeqIter(ents, 0, n), None, st2))
+        return out
+
+    def collect_vec(ex_, callee, args, st):
+        it = ex_.deref(args[0], st)
+        if not isinstance(it, mirx.SeqIter):
+            raise Unsupported(f"collect of {it!r}")
+        return [("return", Adt("Vec", "lit", [mirx.seq_elem(ex_, it.seq, k) for k in range(it.lo, it.hi)]), None, st)]
+
+    def deref_mut(ex_, callee, args, st):
+        return [("return", args[0], None, st)]
+
+    def sort_by_key0(ex_, callee, args, st):
+        """`v.sort_by(|a, b| a.0.cmp(b.0))` / `v.sort()` on (key, value) pairs: every permutation that is ascending in the keys' order (string
+        order is abstracted by the order of the strings' ids - equal strings have equal ids)."""
+        import itertools
+        r = final_ref(args[0], st)
+        v = ex_.deref(args[0], st)
+        if r is None or not (isinstance(v, Adt) and v.ty == "Vec"):
+            raise Unsupported(f"sort of {v!r}")
+        els = list(v.fields)
+        if len(els) < 2:
+            return [("return", symex.Unit(), None, st)]
+        ids = [mirx.str_id(ex_, (e.items[0] if isinstance(e, symex.Tup) else e), st) for e in els]
+        out = []
+        for perm in itertools.permutations(range(len(els))):
+            conds = [f"(< {ids[a]} {ids[b]})" for a, b in zip(perm, perm[1:])]
+            st2 = st.fork()
+            st2.pc += [c for c in conds if c not in st2.pc]
+            ex_._store(r.frame, r.place, Adt("Vec", "lit", [els[k] for k in perm]), st2)
+            out.append(("return", symex.Unit(), None, st2))
+        return out
+
+    def vec_into_iter(ex_, callee, args, st):
+        v = ex_.deref(args[0], st)
+        if isinstance(v, Adt) and v.ty == "Vec":
+            return [("return", mirx.SeqIter(v, 0, len(v.fields)), None, st)]
+        return mirx.st_into_iter(ex_, callee, args, st)
+    first = {
+        r"HashSet::<&str>::new$": mirx.st_set_new,
+        r"HashSet::<&str>::insert$": mirx.st_set_insert,
+        r"HashSet::<&str>::contains::<.*>$": mirx.st_set_contains,
+        r"HashMap::<(std::string::)?String, .*>::iter$": map_iter,
+        r"^<&(std::collections::)?HashMap<(std::string::)?String, .*> as (std::iter::)?IntoIterator>::into_iter$": map_iter,
+        r"^<(std::collections::)?hash_map::Iter<.*> as (std::iter::)?Iterator>::collect::<(std::vec::)?Vec<.*>>$": collect_vec,
+        r"^<(std::vec::)?Vec<.*> as (std::ops::)?DerefMut>::deref_mut$": deref_mut,
+        r"^(core|std|alloc)::slice::<impl \[.*\]>::(sort_by|sort_unstable_by)::<.*>$": sort_by_key0,
+        r"^(core|std|alloc)::slice::<impl \[.*\]>::(sort|sort_unstable)$": sort_by_key0,
+        r"^<(std::vec::)?Vec<.*> as (std::iter::)?IntoIterator>::into_iter$": vec_into_iter,
+        r"^<(std::vec::)?(vec::)?IntoIter<.*> as (std::iter::)?Iterator>::next$": mirx.st_iter_next,
+    }
+    ex.state_intrinsics = {**first, **{k: v for k, v in t.items() if k not in first}}
+    return ex
+
+
+def dep_lines(ex, o):
+    """The dependency lines pushed on this path, in order: (name term | constant name, spec description)."""
+    evs = o.state.events
+    by_res = {e[2]: e for e in evs}
+    from mir import split_top
+    lines = None
+    for e in evs:
+        if e[0].endswith("::join") and len(e[1]) == 2 and e[1][1] == 'opaque<const "\\n">':
+            m = re.match(r"^Vec::lit\((.*)\)$", e[1][0], re.S)
+            lines = split_top(m.group(1)) if m and m.group(1).strip() else []
+    if lines is None:
+        return [("?", "the dependency lines are not joined with newlines any more")]
+    out = []
+    for item in lines:
+        m = re.match(r"^sym<(ev\d+):String>$", item)
+        src = by_res.get(m.group(1)) if m else None
+        desc = None
+        while src is not None and src[0].endswith("must_use"):
+            m2 = re.match(r"^sym<(ev\d+):String>$", src[1][0])
+            src = by_res.get(m2.group(1)) if m2 else None
+        if src is None:
+            out.append(("?", item))
+            continue
+        if src[0].endswith("to_string"):
+            mm = re.match(r'^opaque<const "(.*)">$', src[1][0], re.S)
+            text = mm.group(1).encode().decode("unicode_escape") if mm else src[1][0]
+            out.append(("const", text))
+            continue
+        if src[0].endswith("format"):
+            am = re.match(r"^sym<(ev\d+):Arguments>$", src[1][0])
+            a = by_res.get(am.group(1)) if am else None
+            tmpl = a[1][0] if a else "?"
+            argl = re.findall(r"sym<(ev\d+):Argument>", a[1][1]) if a and len(a[1]) > 1 else []
+            roots = [by_res[x][1][0] if x in by_res else "?" for x in argl]
+            out.append(("fmt", tmpl, tuple(roots)))
+            continue
+        out.append(("?", src[0]))
+    return out
+
+
+def cargo_toml_ob(P, R, mp, log_dir, bound, pid):
+    statement = ("ProjectGenerator::generate_cargo_toml, the [dependencies] table: incan_stdlib and incan_derive by path (features `web` / `json` exactly with axum / serde); the "
+                 "documented pinned lines for serde + serde_json, axum + tokio(net), tokio exactly when the corresponding need is set; one line `name = spec` for every "
+                 "`rust::` crate whose name is none of those - and no second line for one that is; every spec is the recorded version (never `*`); and the sequence of lines "
+                 "is the same whichever order the HashMap yields its entries in")
+
+    def run():
+        t0 = time.time()
+        f = only_fn(P, "generate_cargo_toml")
+        runs = []
+        for rev in (False, True):
+            ex = cargo_executor(P, R, bound, rev)
+            g = ex.sym_value("backend::project::ProjectGenerator", "g")
+            outs = ex.run(f, [g])
+            # representation invariant of the map (X-add_rust_crate; add_rust_crate_with_version inserts Some): every recorded spec is Some
+            outs = [o for o in outs if not any(re.match(r"^g\.6\.v\d+!tag$", str(k)) and v == ("eq", 0) for k, v in o.state.facts.items())]
+            runs.append((ex, outs))
+        exA, outsA = runs[0]
+        r = {"id": "X-cargo_toml", "engine": "E2-X mirsmt", "statement": statement,
+             "bound": f"0..={bound} `rust::` crates with symbolic names and recorded specs (invariant: Some), all four flags symbolic; string equality / order = equality / order of symbolic ids "
+                      "(decided by z3); format! / join / Path are uninterpreted; the map is iterated in both directions",
+             "functions_encoded": [n + " (MIR)" for n in exA.encoded]}
+        bad, wild, q, n = [], [], 0, 0
+        # constants are pairwise different strings
+        for ex, _ in runs:
+            consts = [v for k, v in getattr(ex, "str_ids", {}).items() if "const" in k]
+            if len(consts) > 1:
+                ex.enc.side.append("(distinct " + " ".join(consts) + ")")
+        prefetch(mp, exA, [o.pc for o in outsA])
+        infos = []
+        for ex, outs in runs:
+            prefetch(mp, ex, [o.pc for o in outs])
+            info = []
+            for o in outs:
+                if not feasible(mp, ex, o.pc):
+                    continue
+                if o.kind != "return":
+                    bad.append(f"{o.kind}: {o.info}")
+                    continue
+                info.append((o, dep_lines(ex, o)))
+            infos.append(info)
+        # ---- content (first run) ----
+        sid = lambda ex, key: ex.str_ids.get(key)
+        for o, lines in infos[0]:
+            n += 1
+            flags = {nm: (f"g.{i}" in o.pc) for nm, i in (("serde", 3), ("tokio", 4), ("axum", 5))}
+            unknown_flag = [nm for nm, i in (("serde", 3), ("tokio", 4), ("axum", 5)) if f"g.{i}" not in o.pc and f"(not g.{i})" not in o.pc]
+            nmap = o.state.facts.get("len:g.6", 0)
+            want = []
+            feats = (["web"] if flags["axum"] else []) + (["json"] if flags["serde"] else [])
+            if len(lines) < 2 or lines[0][0] != "fmt" or "incan_stdlib = { path" not in lines[0][1] or lines[1][0] != "fmt" or "incan_derive = { path" not in lines[1][1]:
+                bad.append(f"the table does not start with incan_stdlib and incan_derive by path: {lines[:2]}")
+                continue
+            if ("features" in lines[0][1]) != bool(feats):
+                bad.append(f"incan_stdlib features {'missing' if feats else 'present'} with needs {flags}")
+            fixed = []
+            if flags["serde"]:
+                fixed += [FEATURE_LINES["serde"], FEATURE_LINES["serde_json"]]
+            if flags["axum"]:
+                fixed += [FEATURE_LINES["axum"], TOKIO % ', "net"']
+            elif flags["tokio"]:
+                fixed += [TOKIO % ""]
+            got_fixed = [l[1] for l in lines[2:] if l[0] == "const"]
+            if got_fixed != fixed and not unknown_flag:
+                bad.append(f"needs {flags}: feature crates declared as {got_fixed}, documented {fixed}")
+            builtin = ["incan_stdlib", "incan_derive"] + [x.split(" =")[0] for x in fixed]
+            rust_lines = [l for l in lines[2:] if l[0] == "fmt"]
+            # which map entry does each rust line belong to, and is its spec the entry's own
+            seen = []
+            for l in rust_lines:
+                m = re.match(r"^sym<g\.6\.k(\d+):String>$", l[2][0]) if l[2] else None
+                if not m:
+                    bad.append(f"a dependency line is not keyed by a `rust::` crate name: {l}")
+                    continue
+                j = int(m.group(1))
+                seen.append(j)
+                if len(l[2]) >= 2:
+                    if l[2][1] != f"sym<g.6.v{j}.Some.0:String>":
+                        bad.append(f"crate #{j} is declared with the spec of another entry: {l[2][1]}")
+                elif '"*"' in l[1] or "*" in l[1]:
+                    wild.append(f"crate #{j} without a recorded version is declared as `*`")
+                else:
+                    bad.append(f"crate #{j} is declared without its spec: {l[1][:60]}")
+            if len(seen) != len(set(seen)):
+                bad.append(f"a `rust::` crate is declared twice: entries {seen}")
+            for j in range(nmap):
+                kid = sid(exA, f"g.6.k{j}")
+                if kid is None:
+                    continue
+                is_builtin = symex.disj([f"(= {kid} {sid(exA, repr(Opaque(chr(34).join(['const ', b, '']))))})" for b in builtin
+                                         if sid(exA, repr(Opaque('const "%s"' % b)))]) if builtin else "false"
+                q += 1
+                if j in seen and feasible(mp, exA, o.pc, [is_builtin]):
+                    bad.append(f"`rust::` crate #{j} gets its own line although its name can equal a crate already declared ({builtin})")
+                if j not in seen and feasible(mp, exA, o.pc, [symex.neg(is_builtin)]):
+                    bad.append(f"`rust::` crate #{j} gets no line although its name differs from every crate already declared")
+        # ---- order independence: compatible paths of the two runs list the same lines in the same order ----
+        exB = runs[1][0]
+        pairs = 0
+        if len(infos) == 2:
+            # both executors share variable names (same construction), so a pc of run B can be asserted in run A's context
+            cand = [(oa, la, ob, lb) for (oa, la) in infos[0] for (ob, lb) in infos[1]
+                    if oa.state.facts.get("len:g.6") == ob.state.facts.get("len:g.6") and (oa.state.facts.get("len:g.6") or 0) >= 2]
+            for d in exB.enc.decls:
+                if d not in exA.enc.decls:
+                    exA.enc.decls.append(d)
+            for s_ in exB.enc.side:
+                if s_ not in exA.enc.side:
+                    exA.enc.side.append(s_)
+            prefetch(mp, exA, [list(oa.pc) + list(ob.pc) for (oa, la, ob, lb) in cand if la != lb])
+            for (oa, la, ob, lb) in cand:
+                if la == lb:
+                    continue
+                q += 1
+                pairs += 1
+                if feasible(mp, exA, list(oa.pc) + list(ob.pc)):
+                    bad.append("the order of the dependency lines follows the map's iteration order: "
+                               f"{[l[2][0] if l[0] == 'fmt' and l[2] else l[1][:20] for l in la[2:]]} vs {[l[2][0] if l[0] == 'fmt' and l[2] else l[1][:20] for l in lb[2:]]}")
+                    break
+        r["pairs_compared"] = pairs
+        r["wildcards"] = len(wild)
+        kf = [x for x in common.load_known_findings().get("findings", []) if x.get("obligation") == "X-cargo_toml" and x.get("property") == pid]
+        res = result_of("X-cargo_toml", r, bad, n, q, t0, lambda: cargo_native(log_dir, pid))
+        if res["status"] == "held" and wild:
+            if pid == "C15":
+                ok, text = cargo_native(log_dir, pid, only_wild=True)
+                if kf and ok:
+                    res.update(status="known-finding", finding=f"X-cargo_toml: {kf[0]['what'][:220]}", witness=text[:300])
+                elif ok:
+                    res.update(status="violated", counterexample={"path": wild[0], "native": text[:400]})
+                    os.makedirs(os.path.join(common.REPLAYS_DIR, "MIRX"), exist_ok=True)
+                    res["replay"] = os.path.join(common.REPLAYS_DIR, "MIRX", "X-cargo_toml.replay")
+                    open(res["replay"], "w").write(f"mirx cargotoml\n# {wild[0]}\n# native: {text[:400]}\n")
+                else:
+                    res.update(status="inconclusive", reason=f"{wild[0]} on a feasible path, but the native scenario shows no `*`")
+        return res
+    return mp.XOb("X-cargo_toml", statement, "", run)
+
+
+def cargo_native(log_dir, pid, only_wild=False):
+    """Run the public ProjectGenerator in several processes; -> (broken?, text)."""
+    import kani
+    problems = []
+    for prof in ("dev", "release"):
+        binp = kani.build_replay(prof, True, log_dir)
+        outs = []
+        for k in range(5 if prof == "dev" else 2):
+            rc, out, _, to = common.run([binp, "cargotoml", os.path.join(common.WORK_DIR, "cargotoml")], timeout=120)
+            deps = {m.group(1): m.group(2) for m in re.finditer(r"^DEPS (\S+) (.*)$", out, re.M)}
+            refused = {m.group(1): m.group(2).split(",") for m in re.finditer(r"^REFUSED (\S+) (.*)$", out, re.M)}
+            if to or rc != 0 or len(deps) < 5:
+                raise Inconclusive(f"replay cargotoml failed (rc={rc}): {out[-200:]}")
+            outs.append(deps)
+        for name, line in outs[0].items():
+            names = [x.split(" =")[0].strip() for x in line.split("|")]
+            if only_wild:
+                if '"*"' in line:
+                    problems.append(f"[{prof}] {name}: {[x for x in line.split('|') if '*' in x]}")
+                continue
+            if any(o_.get(name) != line for o_ in outs[1:]):
+                problems.append(f"[{prof}] {name}: the dependency lines differ between two runs of the same program")
+            if len(names) != len(set(names)):
+                problems.append(f"[{prof}] {name}: a crate is declared twice: {sorted(x for x in names if names.count(x) > 1)}")
+            need = {"eight_crates": ["rand", "regex", "anyhow", "log", "bytes", "futures", "itertools", "uuid"], "serde_overlap": ["serde", "serde_json", "chrono"],
+                    "axum_tokio_overlap": ["axum", "tokio", "tracing"], "tokio_only": ["tokio", "reqwest", "regex"], "unknown_crate": ["rand", "left_pad"],
+                    "all_known": ["serde", "serde_json", "tokio", "time", "chrono", "reqwest", "uuid", "rand", "regex", "anyhow", "thiserror", "tracing", "clap",
+                                  "log", "env_logger", "sqlx", "futures", "bytes", "itertools"]}.get(name, [])
+            if name != "unknown_crate" and refused.get(name):
+                problems.append(f"[{prof}] {name}: crates with a documented pin are refused: {refused[name]}")
+            miss = [c for c in need + ["incan_stdlib", "incan_derive"] if c not in names and c not in refused.get(name, [])]
+            if miss:
+                problems.append(f"[{prof}] {name}: no dependency declared for {miss}")
+            if name != "unknown_crate" and '"*"' in line:
+                problems.append(f"[{prof}] {name}: a crate with a documented pin is declared as `*`: {[x for x in line.split('|') if '*' in x]}")
+            if name == "axum_tokio_overlap" and '"net"' not in line:
+                problems.append(f"[{prof}] {name}: tokio lacks the `net` feature although the web framework is used")
+    return bool(problems), "; ".join(problems[:4]) or "every scenario: same lines in every process, each crate once, documented pins"
+
+
+# the known-good table as documented (UnknownCrateError's message lists the names; the pins are the documented ones)
+KNOWN_GOOD = {
+    "serde": '{ version = "1.0", features = ["derive"] }', "serde_json": '"1.0"',
+    "tokio": '{ version = "1", features = ["rt-multi-thread", "macros", "time", "sync"] }',
+    "time": '{ version = "0.3", features = ["formatting", "macros"] }', "chrono": '{ version = "0.4", features = ["serde"] }',
+    "reqwest": '{ version = "0.11", features = ["json"] }', "uuid": '{ version = "1.0", features = ["v4", "serde"] }', "rand": '"0.8"', "regex": '"1.0"',
+    "anyhow": '"1.0"', "thiserror": '"1.0"', "tracing": '"0.1"', "clap": '{ version = "4.0", features = ["derive"] }', "log": '"0.4"', "env_logger": '"0.10"',
+    "sqlx": '{ version = "0.7", features = ["runtime-tokio-native-tls", "postgres"] }', "futures": '"0.3"', "bytes": '"1.0"', "itertools": '"0.12"',
+}
+
+
+def add_rust_crate_ob(P, R, mp, log_dir):
+    statement = ("ProjectGenerator::add_rust_crate(name): for each of the 19 known-good crates the dependency recorded under `name` is Some(its documented pin); "
+                 "for any other name NOTHING is recorded and Err(UnknownCrateError{name}) is returned - so the dependency map never holds an entry without a "
+                 "version (the invariant generate_cargo_toml is checked under)")
+
+    def run():
+        t0 = time.time()
+        f = only_fn(P, ">::add_rust_crate")
+        ex = slice_executor(P, R, 1)
+        g = ex.sym_value("backend::project::ProjectGenerator", "g")
+        try:
+            outs = ex.run(f, [g, Opaque("name")])
+        except (Unsupported, symex.PathExplosion) as x:
+            outs, err = [], str(x)
+        r = {"id": "X-add_rust_crate", "engine": "E2-X mirsmt", "statement": statement,
+             "bound": "the name is a symbolic string; each comparison `name == \"<crate>\"` is an uninterpreted answer, constrained only by: at most one of them is true",
+             "functions_encoded": [n + " (MIR)" for n in ex.encoded]}
+        bad, n, seen = [], 0, {}
+        if not outs:
+            bad.append(f"add_rust_crate is no longer a chain of name comparisons followed by one insert: {locals().get('err', 'no path')}")
+        for o in outs:
+            evs = o.state.events
+            eqs = {e[2]: re.match(r'^opaque<const "(.*)">$', e[1][1]).group(1) for e in evs
+                   if e[0].endswith("::eq") and len(e[1]) == 2 and e[1][0] == "opaque<name>" and re.match(r'^opaque<const "(.*)">$', e[1][1])}
+            true_ = [c for ev_, c in eqs.items() if ev_ in o.pc]
+            if len(true_) > 1:
+                continue            # the name equals two different constants: infeasible
+            n += 1
+            ins = [e for e in evs if e[0].endswith("HashMap::insert")]
+            val = mirx.show(o.value, ex, o.state)
+            if o.kind != "return":
+                bad.append(f"{o.kind}: {o.info}")
+                continue
+            if not true_:
+                if ins:
+                    bad.append(f"a name that equals no known-good crate is recorded: {ins[0][1][2][:60]}")
+                if not val.startswith("Result::Err("):
+                    bad.append(f"a name that equals no known-good crate is accepted (returns {val[:40]})")
+                tested = set(eqs.values())
+                miss = [c for c in KNOWN_GOOD if c not in tested]
+                if miss and not ins:
+                    bad.append(f"refused without ever comparing the name with {miss[:4]}")
+                continue
+            c = true_[0]
+            by_res = {e[2]: e for e in evs}
+            if len(ins) != 1:
+                bad.append(f"`{c}`: {len(ins)} inserts")
+                continue
+            key, value = ins[0][1][1], ins[0][1][2]
+            km = re.match(r"^sym<(ev\d+):String>$", key)
+            if not km or by_res[km.group(1)][1] != ("opaque<name>",):
+                bad.append(f"`{c}` is recorded under another key: {key}")
+            vm = re.match(r"^Option::Some\(sym<(ev\d+):String>\)$", value)
+            spec = None
+            if vm and by_res.get(vm.group(1)) and by_res[vm.group(1)][0].endswith("to_string"):
+                mm = re.match(r'^opaque<const "(.*)">$', by_res[vm.group(1)][1][0], re.S)
+                spec = mm.group(1).encode().decode("unicode_escape") if mm else None
+            seen[c] = spec
+            if c not in KNOWN_GOOD:
+                bad.append(f"`{c}` is accepted but is not in the documented known-good list")
+            elif spec != KNOWN_GOOD[c]:
+                bad.append(f"`{c}` is recorded as {value[:60]} / {spec}, documented pin {KNOWN_GOOD[c]}")
+        for c in KNOWN_GOOD:
+            if outs and c not in seen:
+                bad.append(f"known-good crate `{c}` has no accepting path")
+        r["table"] = len(seen)
+        return result_of("X-add_rust_crate", r, bad, n, len(outs), t0, lambda: cargo_native(log_dir, "C15"))
+    return mp.XOb("X-add_rust_crate", statement, "", run)
